@@ -622,6 +622,8 @@ func (x *c18) runErrors() {
 		{"PAN-OS", `<config><devices><entry name="localhost.localdomain"><vsys><entry name="vsys1"></entry></vsys></entry></devices></config>`,
 			core.Files{Main: `<config><devices><entry name="localhost.localdomain"><vsys><entry name="vsys1"></entry></vsys></entry></devices></config>`,
 				V6: `<config><devices><entry name="other-device"><vsys><entry name="vsys1"><rulebase><security><rules><entry name="v6r1"><action>allow</action><from><member>z1</member></from><to><member>z2</member></to><source><member>any</member></source><destination><member>any</member></destination><service><member>any</member></service><application><member>any</member></application></entry></rules></security></rulebase></entry></vsys></entry></devices></config>`}, "IPv6 file for another device entry"},
+		{"Linux", "", core.Files{Main: "*filter\n:FORWARD DROP\n-A FORWARD -j ACCEPT -s 10.1.1.1\nCOMMIT\n",
+			Raw: "*filter\n:FORWARD DROP\n-A FORWARD -j ACCEPT -s 10.7.7.1\n*filter\n:FORWARD DROP\n-A FORWARD -j ACCEPT -s 10.7.7.2\n"}, "table defined twice in the raw file"},
 		{"NSX", "", core.Files{Main: "", Raw: `{"groups":[{"id":"other-g1","expression":[{"id":"id","resource_type":"IPAddressExpression","ip_addresses":["10.1.1.1"]}]}]}`}, "forbidden group name"},
 		{"NSX", "", core.Files{Main: "", Raw: `{"policies":[{"id":"Netspoc-v1","rules":[{"id":"r1","action":"ALLOW","sequence_number":1,"source_groups":["ANY"],"destination_groups":["ANY"],"services":["ANY"],"scope":["/infra/tier-0s/v1"],"direction":"OUT"}]}]}`}, "forbidden rule name"},
 	}
@@ -651,6 +653,7 @@ func c18Worker(ctx *core.Ctx) *core.Result {
 	x.runNSX()
 	x.runPanosMulti()
 	x.runNSXMulti()
+	x.runLegalRaw()
 	x.runErrors()
 	return x.res
 }
@@ -658,7 +661,7 @@ func c18Worker(ctx *core.Ctx) *core.Result {
 func init() {
 	registerSharded("C18", c18Worker, func(tier string) core.Meta {
 		return core.Meta{ID: "C18", Level: "exploration",
-			Rule:        "all combinations of part shapes: Netspoc IPv4 part {empty, only deny, permit+deny, only permits, 2 permits+deny, 2 denies} x IPv6 part (same shapes; ASA, PAN-OS, NSX) x raw prepend entries {0,1,2} x raw [APPEND] entries {0,1,2} x raw ACL name {equal to Netspoc's, own}; Linux additionally x raw file layout {one table with / without COMMIT line, a second table with its own [APPEND] section in front, with / without COMMIT between}; for ASA, IOS, Linux, PAN-OS, NSX; several containers: PAN-OS two vsys x each part holding 0..3 rules for either (144 combinations), NSX three gateway policies x each part holding any subset (511 combinations); the effective target is observed as the state an empty device model reaches after executing the script of the real planner; oracle = independent list predicates: every entry exactly once, order inside each part preserved, raw entries in front of all Netspoc entries, [APPEND] entries behind the last permitting Netspoc entry and in front of the trailing deny/drop entries (PAN-OS: at the end; NSX: only completeness); plus a list of unmergeable raw entries (unknown command, unbound / doubly bound object, name clash, forbidden names) that must give an error or a warning; non-trivial = combinations the tool accepted and whose result was checked",
+			Rule:        "all combinations of part shapes: Netspoc IPv4 part {empty, only deny, permit+deny, only permits, 2 permits+deny, 2 denies} x IPv6 part (same shapes; ASA, PAN-OS, NSX) x raw prepend entries {0,1,2} x raw [APPEND] entries {0,1,2} x raw ACL name {equal to Netspoc's, own}; Linux additionally x raw file layout {one table with / without COMMIT line, a second table with its own [APPEND] section in front, with / without COMMIT between}; for ASA, IOS, Linux, PAN-OS, NSX; several containers: PAN-OS two vsys x each part holding 0..3 rules for either (144 combinations), NSX three gateway policies x each part holding any subset (511 combinations); the effective target is observed as the state an empty device model reaches after executing the script of the real planner; oracle = independent list predicates: every entry exactly once, order inside each part preserved, raw entries in front of all Netspoc entries, [APPEND] entries behind the last permitting Netspoc entry and in front of the trailing deny/drop entries (PAN-OS: at the end; NSX: only completeness); plus a list of legal raw constructs that must arrive completely (group referenced by two raw lines, raw / IPv6 service-groups, raw route equal to a Netspoc route) and a list of unmergeable raw entries (unknown command, unbound / doubly bound object, name clash, forbidden names) that must give an error or a warning; non-trivial = combinations the tool accepted and whose result was checked",
 			Assumptions: []string{"relative order of IPv4 and IPv6 entries is not prescribed by the statement and not checked"},
 			Bounds:      map[string]any{"entries per part": "<=3 Netspoc, <=2 raw, <=2 APPEND"},
 		}
@@ -844,6 +847,70 @@ func (x *c18) runNSXMulti() {
 					}
 				}
 				x.res.Outcome("ok:policies")
+			}
+		}
+	}
+}
+
+// ---- legal raw constructs that must arrive completely ----
+
+// runLegalRaw: each case is a target whose raw part uses a legal construct
+// beyond plain rule lines; the script for an empty device must be accepted
+// by the device model and must contain every listed needle exactly the
+// given number of times.
+func (x *c18) runLegalRaw() {
+	if x.ctx.Shard != 0 {
+		return
+	}
+	panEmpty := `<config><devices><entry name="localhost.localdomain"><vsys><entry name="vsys1"></entry></vsys></entry></devices></config>` + "\n"
+	panRule := func(name, svc string) string {
+		return `<entry name="` + name + `"><action>allow</action><from><member>z1</member></from><to><member>z2</member></to><source><member>any</member></source><destination><member>any</member></destination><service><member>` + svc + `</member></service><application><member>any</member></application></entry>`
+	}
+	panCfg := func(inner string) string {
+		return `<config><devices><entry name="localhost.localdomain"><vsys><entry name="vsys1">` + inner + `</entry></vsys></entry></devices></config>` + "\n"
+	}
+	type lc struct {
+		model, what, dev string
+		b               core.Files
+		needles         map[string]int
+	}
+	cases := []lc{
+		{"ASA", "raw object-group referenced by two raw ACL lines", asaIntf,
+			core.Files{Main: "access-list inside_in extended permit ip host 10.1.1.1 any4\naccess-group inside_in in interface inside\n",
+				Raw: "object-group network og1\n network-object host 10.7.7.1\naccess-list rawacl extended permit ip object-group og1 any4\naccess-list rawacl extended permit tcp object-group og1 any4 eq 80\naccess-group rawacl in interface outside\n"},
+			map[string]int{"network-object host 10.7.7.1": 1, "permit tcp object-group og1": 1, "permit ip object-group og1": 1}},
+		{"ASA", "raw object-group referenced by a raw line and used by two lines of a merged ACL", asaIntf,
+			core.Files{Main: "access-list inside_in extended permit ip host 10.1.1.1 any4\naccess-group inside_in in interface inside\n",
+				Raw: "object-group network og1\n network-object host 10.7.7.1\naccess-list inside_in extended permit ip object-group og1 any4\naccess-list inside_in extended permit udp object-group og1 any4 eq 53\naccess-group inside_in in interface inside\n"},
+			map[string]int{"network-object host 10.7.7.1": 1, "permit udp object-group og1": 1}},
+		{"PAN-OS", "raw rule using a raw service-group", panEmpty,
+			core.Files{Main: panCfg(`<rulebase><security><rules>` + panRule("r1", "any") + `</rules></security></rulebase>`),
+				Raw: panCfg(`<rulebase><security><rules>` + panRule("raw1", "sgraw") + `</rules></security></rulebase><service-group><entry name="sgraw"><members><member>tcp 81</member></members></entry></service-group><service><entry name="tcp 81"><protocol><tcp><port>81</port></tcp></protocol></entry></service>`)},
+			map[string]int{"service-group/entry[@name='sgraw']": 1, "service/entry[@name='tcp 81']": 1}},
+		{"PAN-OS", "IPv6 rule using an IPv6 service-group", panEmpty,
+			core.Files{Main: panCfg(`<rulebase><security><rules>` + panRule("r1", "any") + `</rules></security></rulebase>`),
+				V6: panCfg(`<rulebase><security><rules>` + panRule("v6r1", "sg6") + `</rules></security></rulebase><service-group><entry name="sg6"><members><member>tcp 82</member></members></entry></service-group><service><entry name="tcp 82"><protocol><tcp><port>82</port></tcp></protocol></entry></service>`)},
+			map[string]int{"service-group/entry[@name='sg6']": 1}},
+		{"Linux", "raw route identical to a Netspoc route", "",
+			core.Files{Main: "ip route add 10.20.0.0/16 via 10.1.2.3\n", Raw: "ip route add 10.20.0.0/16 via 10.1.2.3\nip route add 10.30.0.0/16 via 10.1.2.3\n"},
+			map[string]int{"ip route add 10.20.0.0/16 via 10.1.2.3": 1, "ip route add 10.30.0.0/16 via 10.1.2.3": 1}},
+	}
+	for i, c := range cases {
+		x.res.Evaluations++
+		out := x.sc.Compare(c.model, core.Files{Main: c.dev}, c.b)
+		x.res.Outcome(fmt.Sprintf("legal-raw:%s:status=%d", c.what, out.Status))
+		if out.Status != 0 {
+			x.violation(c.model, "legal-raw", int64(i), c.dev, c.b, nil, "accepted", "rejected-legal:"+c.what,
+				fmt.Sprintf("legal raw construct (%s) is rejected: %s%s", c.what, out.Stderr, out.Panic))
+			continue
+		}
+		x.res.Nontrivial++
+		text := strings.Join(out.Script(), "\n")
+		for n, want := range c.needles {
+			if got := strings.Count(text, n); got != want {
+				x.violation(c.model, "legal-raw", int64(i), c.dev, c.b, out.Script(), "merge-complete", "incomplete-legal:"+c.what,
+					fmt.Sprintf("%s: %q appears %d times in the script, expected %d", c.what, n, got, want))
+				break
 			}
 		}
 	}
